@@ -503,6 +503,25 @@ func countedFresh(v reflect.Value) string {
 	return ""
 }
 
+// aliasTwice: two result columns denote the same output (then its destination is legitimately scanned twice)
+func aliasTwice(cols []string) bool {
+	seen := map[int]bool{}
+	for _, c := range cols {
+		if !strings.HasPrefix(c, "_sqlair_") {
+			continue
+		}
+		n, err := strconv.Atoi(c[len("_sqlair_"):])
+		if err != nil || n < 0 {
+			continue
+		}
+		if seen[n] {
+			return true
+		}
+		seen[n] = true
+	}
+	return false
+}
+
 type scanAllObs struct {
 	line   string
 	viols  []string // C15 / C06 oracle failures
@@ -610,7 +629,7 @@ func implScanAll(c *scanCase, dests []allDest, nrows int) (o scanAllObs) {
 			}
 			el := sl.Index(d.prior + r)
 			els = append(els, printDest(el))
-			if m := countedFresh(el); m != "" {
+			if m := countedFresh(el); m != "" && !aliasTwice(c.cols) {
 				o.viols = append(o.viols, m)
 			}
 		}
